@@ -763,7 +763,7 @@ static void post_call_checks(void)
                 WS.canary_checks++;
                 int b = canaries_ok();
                 if (b >= 0) VIOL(P_C03, "C03: canary around memory block %d damaged (out-of-bounds write)", b);
-                if (w_san_error) VIOL(P_C03, "C03: sanitizer reported an error during this call");
+                if (w_san_error) { w_san_error = 0; mcx_skip_confirm = 1; VIOL(P_C03, "C03: sanitizer (ASan/UBSan) reported an error during this call"); }
         }
         mon_ro_check();
 }
